@@ -158,6 +158,20 @@ def run(ctx):
                 heads = f.loop_heads()
                 from .common import loop_exits_only_on_exhaustion
                 oke = oke and len(heads) == 1 and loop_exits_only_on_exhaustion(f, heads[0]) and bi in f.natural_loop(heads[0])
+            if not oke and not calls and not f.loop_heads():
+                # iter.into_iter().for_each(|x| self.add(x)): for_each visits every item; the closure must call add(self, item) on each path
+                from ..paths import PathEnumerator
+                fe = [(bi, t) for bi, t in f.calls() if t.callee_decl() == "std::iter::Iterator::for_each"]
+                if len(fe) == 1:
+                    bi, t = fe[0]
+                    a = [tbe.operand(x, bi, len(f.blocks[bi].stmts)) for x in t.args]
+                    if a[0] == ("param", 2, f.local_name(2)) and a[1][0] == "closure" and prog.fn(a[1][1]) is not None and a[1][2] and a[1][2][0][:2] == ("param", 1):
+                        cf_ = prog.fn(a[1][1])
+                        ctx.analysed_fns.add(cf_.key)
+                        item = ("param", 2, cf_.local_name(2))
+                        ps = [p for p in PathEnumerator(cf_, prog, ctx.summ).paths() if p.exit_kind == "return"]
+                        oke = bool(ps) and all(
+                            [e["args"][1] for e in p.events if e["kind"] == "call" and e["callee"] == HLL + "::add"] == [item] for p in ps)
             ctx.check(oke, "R17-delegation", f.key, f, "extend calls add for every item of the iterator", "extend does not call add(item) for every item")
     ctx.floor("R17-delegation", n_ext, 2, "Extend impls")
 
